@@ -122,6 +122,8 @@ func TestProp(t *testing.T) {
 		"under the opposite one, every truncation (and for Wrap every prefix of a header with EC=0, tokens without checksum), 1-octet extensions, all 255 wrong values of every filler octet (one case per octet), " +
 		"each of payload/flags/seq/key/usage changed between SetCheckSum and Verify on the struct, other keys, key types and usages on the decoded token, for MIC other presented payloads; " +
 		"the expected outcome of every transformed token is what ref/gss (decode per RFC 4121 for the expected direction, then verify) says for the transformed octets, and wrong TOK_ID / filler / direction must already fail in Unmarshal. " +
+		"Histories on one key: for every ordered selection of >= 2 etypes of equal key size (16 octets: 17,19,23; 32 octets: 18,20) x usage {22..25} x 2 (thorough 8) key values, " +
+		"the SAME key octets are used under the etypes in that order, twice through, wrap and mic, one complete token case and one constructor call per step, sequentially inside the unit, each unit with a key value of its own. " +
 		"All 65536 TOK_ID values for one token per kind and etype; NewInitiatorWrapToken/NewInitiatorMICToken for every etype x length judged by the reference receiver with all four usages. " +
 		"distinct = (kind,etype,len,flags,seq,usage[,transformation]); all cases non-trivial")
 	r.Assume("reference tokens ref/gss (RFC 4121 4.2.4-4.2.6, written from the RFC) over ref/kcrypto checksums; self-tested on every run (hand-assembled tokens for all etypes, one captured acceptor Wrap token, rotation, own bit flips)")
@@ -210,6 +212,15 @@ func TestProp(t *testing.T) {
 	})
 	r.Exhaustive("single-bit flips, truncations and filler values of every sampled token")
 
+	// histories: the same key octets under several etypes of equal key size, in every call order
+	sharedKeys(r)
+	r.Exhaustive("call orders of the etypes of equal key size on one key x usage {22..25}")
+
+	r.Require("shared_key_units", 100)
+	r.Require("shared_key_tokens_after_other_etype", 800)
+	r.Require("shared_key_marshal_equal", 1000)
+	r.Require("shared_key_verify_untouched_true", 1000)
+	r.Require("shared_key_newinitiator_ok", 1000)
 	r.Require("marshal_equal", 40000)
 	r.Require("roundtrip_equal", 40000)
 	r.Require("ref_token_fields_equal", 40000)
@@ -228,6 +239,113 @@ func TestProp(t *testing.T) {
 	r.Require("observe_rrc_flip", 10000)
 	r.Require("ext_tokens", 3000)
 	r.Require("ext_reserved_flag_tokens_judged", 2900)
+}
+
+// sharedKeys runs histories of calls in which ONE key value (the same octets) is used under several etypes of equal key size
+// (aes128-sha1 / aes128-sha2 / rc4: 16 octets; aes256-sha1 / aes256-sha2: 32 octets), as a test bed or a KDC with one fixed key
+// per key length does. The statement makes the checksum a function of payload, header, key and key usage (per etype): what was
+// computed before with the same octets under another etype must not show. Every ordered selection of two or more etypes of a
+// group is a call order of its own (whichever etype comes first, or last, may be the one that leaves something behind), for
+// every GSS key usage; each unit owns a key value no other unit or family uses and makes its calls one after the other, so the
+// order is the same in every run although units run in parallel. Every step is a complete token case (tokenH: build, compare
+// with the reference, round trip, verification of the reference's token = the peer's genuine token, sampled negatives) and the
+// library's constructor; the order is run through twice (the second pass meets whatever the last etype left behind).
+func sharedKeys(r *vh.Run) {
+	byLen := map[int][]int32{}
+	var lens []int
+	for _, et := range kcrypto.Etypes {
+		l := kcrypto.KeyLen(et)
+		if len(byLen[l]) == 0 {
+			lens = append(lens, l)
+		}
+		byLen[l] = append(byLen[l], et)
+	}
+	type unit struct {
+		order []int32
+		usage uint32
+		ki    int
+	}
+	nk := 2
+	if vh.Thorough() {
+		nk = 8
+	}
+	var units []unit
+	for _, l := range lens {
+		if len(byLen[l]) < 2 {
+			continue
+		}
+		for _, o := range sequences(byLen[l]) {
+			for _, u := range usages {
+				for ki := 0; ki < nk; ki++ {
+					units = append(units, unit{o, u, ki})
+				}
+			}
+		}
+	}
+	vh.Workers(len(units), func(ui int) {
+		u := units[ui]
+		uk := fmt.Sprintf("shared/ord=%s/u=%d/k=%d", strings.Trim(strings.ReplaceAll(fmt.Sprint(u.order), " ", "-"), "[]"), u.usage, u.ki)
+		if !mine(r, uk) {
+			return
+		}
+		// the unit's own key value: the same octets for every etype of the group, used nowhere else in this process
+		key := pcommon.SharedKey(u.order[0], ui)
+		for _, et := range u.order {
+			if len(key) != kcrypto.KeyLen(et) || !bytes.Equal(pcommon.SharedKey(et, ui), key) {
+				r.Inconclusive("shared key octets differ between the etypes of " + uk)
+				return
+			}
+		}
+		tl := tally{}
+		rnd := vh.NewRand("c17shared", uk)
+		kinds := []string{"wrap", "mic"}
+		if u.ki%2 == 1 {
+			kinds = []string{"mic", "wrap"}
+		}
+		var before []string
+		for pass := 0; pass < 2; pass++ {
+			for pos, et := range u.order {
+				for _, kind := range kinds {
+					n := rnd.Intn(maxLen + 1)
+					if rnd.Intn(4) == 0 {
+						n = rnd.Intn(4)
+					}
+					c := combo{flags: byte(rnd.Intn(8)), seq: seqs[rnd.Intn(len(seqs))], usage: u.usage}
+					h := &hist{prefix: fmt.Sprintf("%s/p%d.%d/", uk, pass, pos), key: key, before: append([]string{}, before...)}
+					tokenH(r, tl, kind, et, n, c, h)
+					newInitiatorH(r, tl, kind, et, rnd.Intn(maxLen+1), h)
+					tl.inc("shared_key_tokens")
+					if pass > 0 || pos > 0 {
+						tl.inc("shared_key_tokens_after_other_etype")
+					}
+					before = append(before, fmt.Sprintf("%s/et=%d/u=%d and its constructor", kind, et, u.usage))
+				}
+			}
+		}
+		tl.inc("shared_key_units")
+		for _, k := range []string{"marshal_equal", "roundtrip_equal", "verify_built_struct_true", "verify_untouched_true", "newinitiator_ok", "neg_sampled_tokens"} {
+			r.Count("shared_key_"+k, tl[k])
+		}
+		tl.flush(r)
+	})
+}
+
+// sequences returns every ordered selection of two or more distinct members of g.
+func sequences(g []int32) [][]int32 {
+	var out [][]int32
+	var rec func(cur []int32, used int)
+	rec = func(cur []int32, used int) {
+		if len(cur) >= 2 {
+			out = append(out, append([]int32{}, cur...))
+		}
+		for i, e := range g {
+			if used&(1<<uint(i)) == 0 {
+				rec(append(cur, e), used|1<<uint(i))
+			}
+		}
+	}
+	rec(nil, 0)
+	return out
 }
 
 func keyFor(et int32, n int) []byte {
@@ -292,14 +410,31 @@ func refAccept(kind string, et int32, key []byte, usage uint32, b []byte, expAcc
 	return ok
 }
 
+// hist places a token inside a history of calls on one key (the shared-key units): the case key gets the prefix, the key is
+// the unit's, the steps made before it go into the detail map, and the token is not selected on its own (a unit is replayed as a whole).
+type hist struct {
+	prefix string
+	key    []byte
+	before []string // earlier steps of the unit
+}
+
 func token(r *vh.Run, tl tally, kind string, et int32, n int, c combo) {
+	tokenH(r, tl, kind, et, n, c, nil)
+}
+
+func tokenH(r *vh.Run, tl tally, kind string, et int32, n int, c combo, h *hist) {
 	ck := fmt.Sprintf("%s/et=%d/len=%d/fl=%d/seq=%d/u=%d", kind, et, n, c.flags, c.seq, c.usage)
-	if !mine(r, ck) {
+	if h != nil {
+		ck = h.prefix + ck
+	} else if !mine(r, ck) {
 		return
 	}
 	r.Eval(ck, true)
 	rnd := vh.NewRand("c17", ck)
 	key := keyFor(et, n)
+	if h != nil {
+		key = h.key
+	}
 	ekey := types.EncryptionKey{KeyType: et, KeyValue: key}
 	payload := rnd.Bytes(n)
 	if c.flags >= 8 {
@@ -330,6 +465,9 @@ func token(r *vh.Run, tl tally, kind string, et int32, n int, c combo) {
 	detail := func(extra map[string]any) map[string]any {
 		d := map[string]any{"case": ck, "kind": kind, "etype": et, "key": hexs(key), "usage": c.usage, "flags": c.flags, "seq": c.seq,
 			"payload": hexs(payload), "reference_token": hexs(want)}
+		if h != nil {
+			d["earlier_calls_with_the_same_key_octets"] = h.before
+		}
 		for k, v := range extra {
 			d[k] = v
 		}
@@ -384,7 +522,7 @@ func token(r *vh.Run, tl tally, kind string, et int32, n int, c combo) {
 			}
 			dd := detail(map[string]any{"gokrb5_token": hexs(got), "first_different_octet": d})
 			if reg == "checksum" {
-				checksumDiffers(r, kind, et, key, c, payload, dd)
+				checksumDiffers(r, kind, et, key, c, payload, dd, h)
 			} else {
 				r.Violation(fmt.Sprintf("C17|%s|marshal|%s", kind, reg), fmt.Sprintf("Marshal() differs from the RFC 4121 token at octet %d (%s)", d, reg), dd)
 			}
@@ -512,23 +650,40 @@ func notAccepted(r *vh.Run, kind string, uok bool, d map[string]any) {
 // checksumDiffers reports a built token whose checksum octets differ from the reference: if the
 // underlying checksum function disagrees with ref/kcrypto on the RFC input it is a crypto defect of
 // that etype, otherwise gokrb5 feeds something else than payload || header into it.
-func checksumDiffers(r *vh.Run, kind string, et int32, key []byte, c combo, payload []byte, d map[string]any) {
+//
+// Inside a shared-key unit (the key octets were used before, possibly under another etype of equal key size) a disagreeing checksum
+// function is tried once more on the same input with a key of the same etype that this process has never used: when that agrees with
+// the reference, the function is right for the etype and wrong for this key because of the earlier calls (state kept per key octets).
+func checksumDiffers(r *vh.Run, kind string, et int32, key []byte, c combo, payload []byte, d map[string]any, h *hist) {
 	hdr := gss.MICHeader(c.flags, c.seq)
 	if kind == "wrap" {
 		hdr = gss.WrapHeader(c.flags, 0, 0, c.seq)
 	}
 	in := append(append([]byte{}, payload...), hdr...)
 	want, _ := kcrypto.Checksum(et, key, c.usage, in)
-	var got []byte
-	var err error
-	vh.Guard(func() {
-		var e etype.EType
-		if e, err = crypto.GetEtype(et); err == nil {
-			got, err = e.GetChecksumHash(key, in, c.usage)
-		}
-	})
+	cksum := func(k []byte) (got []byte, err error) {
+		vh.Guard(func() {
+			var e etype.EType
+			if e, err = crypto.GetEtype(et); err == nil {
+				got, err = e.GetChecksumHash(k, in, c.usage)
+			}
+		})
+		return
+	}
+	got, err := cksum(key)
 	if err != nil || !bytes.Equal(got, want) {
 		d["crypto_checksum_of_rfc_input"] = hexs(got)
+		if h != nil && len(h.before) > 0 {
+			fresh := pcommon.RefKey(vh.NewRand("c17fresh", d["case"]), et)
+			fwant, _ := kcrypto.Checksum(et, fresh, c.usage, in)
+			if fgot, ferr := cksum(fresh); ferr == nil && len(fwant) > 0 && bytes.Equal(fgot, fwant) {
+				d["never_used_key_for_which_the_checksum_function_agrees"] = hexs(fresh)
+				r.Violation(fmt.Sprintf("C17|%s|checksum|key-used-before|etype=%d", kind, et),
+					"the etype's GetChecksumHash differs from the reference for a key whose octets were used in earlier calls (see earlier_calls_with_the_same_key_octets) "+
+						"and agrees with it for a key never used: the checksum depends on the history of calls, not only on payload, header, key and usage", d)
+				return
+			}
+		}
 		r.Violation(fmt.Sprintf("C17|%s|checksum|crypto|etype=%d", kind, et), "the etype's GetChecksumHash differs from the reference on payload || header (checksum function, not token, defect)", d)
 		return
 	}
@@ -1094,15 +1249,27 @@ func tokIDs(r *vh.Run, kind string, et int32) {
 // newInitiator: the library's own constructors produce an initiator token (acceptor flag clear)
 // that the reference receiver accepts with usage 24 (Wrap) / 25 (MIC) and for no other GSS usage.
 func newInitiator(r *vh.Run, tl tally, kind string, et int32, n int) {
+	newInitiatorH(r, tl, kind, et, n, nil)
+}
+
+func newInitiatorH(r *vh.Run, tl tally, kind string, et int32, n int, h *hist) {
 	ck := fmt.Sprintf("newinitiator/%s/et=%d/len=%d", kind, et, n)
-	if !mine(r, ck) {
+	if h != nil {
+		ck = h.prefix + ck
+	} else if !mine(r, ck) {
 		return
 	}
 	r.Eval(ck, true)
 	key := keyFor(et, n)
+	if h != nil {
+		key = h.key
+	}
 	ekey := types.EncryptionKey{KeyType: et, KeyValue: key}
 	payload := vh.NewRand("c17", ck).Bytes(n)
 	d := map[string]any{"case": ck, "kind": kind, "etype": et, "key": hexs(key), "payload": hexs(payload)}
+	if h != nil {
+		d["earlier_calls_with_the_same_key_octets"] = h.before
+	}
 	var tok []byte
 	var flags byte
 	var err error
